@@ -158,6 +158,8 @@ PROBES = [
 
 # member / element assignment changes exactly the targeted container: (program, expected text)
 PROTO = "def p = <*count = 0, items = [1], step = fn(self) do self->count += 1; self->count end*>; def a = <*_proto_ = p*>; def b = <*_proto_ = p*>; "
+CLASSES = ("def Base = <*_init_ = fn(self, x) do self->x = x end*>; def Mid = <*_proto_ = Base*>; def Leaf = <*_proto_ = Mid*>; "
+           "def Own = <*_proto_ = Base, tag = 'own', _init_ = fn(self, x) do self->x = x end*>; ")
 TARGETED = [
     (PROTO + "a->count += 1; [a->count, b->count, p->count]", "[1, 0, 0]"),
     (PROTO + "a->count -= 2; a->count *= 3; [a->count, b->count, p->count]", "[-6, 0, 0]"),
@@ -169,6 +171,11 @@ TARGETED = [
     (PROTO + "a->items += [2]; [a->items, b->items, p->items]", "[[1, 2], [1], [1]]"),
     (PROTO + "append(a->items, 2); [a->items, b->items, p->items]", "[[1, 2], [1, 2], [1, 2]]"),          # shared by reference
     (PROTO + "def c = <*_proto_ = a*>; c->count += 1; [c->count, a->count, p->count]", "[1, 0, 0]"),
+    # new() makes an instance: the class it is given, and the classes that one inherits from, stay as they were
+    (CLASSES + "def before = [ls(Base), ls(Mid), ls(Leaf), string(Base), string(Mid), string(Leaf)]; def i1 = new(Leaf, 2); def i2 = new(Mid, 1); def i3 = new(Base, 3); def i4 = new(Own, 4); "
+     "[before == [ls(Base), ls(Mid), ls(Leaf), string(Base), string(Mid), string(Leaf)], i3->x, i4->x, i4->tag, Own->x, ls(Own) == ['_proto_', 'tag', '_init_']]", "[TRUE, 3, 4, 'own', NULL, TRUE]"),
+    (CLASSES + "def i1 = new(Leaf, 2); def i2 = new(Leaf, 5); i1->mark = 'one'; [i2->mark, Leaf->mark, Mid->mark, Base->mark, i1->mark]", "[NULL, NULL, NULL, NULL, 'one']"),
+    (CLASSES + "def i1 = new(Base, 1); def i2 = new(Base, 2); [i1->x, i2->x, Base->x]", "[1, 2, NULL]"),
     ("def m = <<<'k' => 1>>>; def n = m; n['k'] += 1; [m, n]", "[<<<'k' => 2>>>, <<<'k' => 2>>>]"),
     ("def collect(x, acc = []) do append(acc, x); acc end; [collect(1), collect(2)]", "[[1], [2]]"),
     ("def l = [1]; def [p, q] = l; [l, p, q]", "[[1], 1, NULL]"),
